@@ -451,6 +451,43 @@ impl Ctx {
                 }),
                 v => v,
             };
+            // A case that ran on the real clock (real sockets, child processes) contains waits in
+            // wall-clock time; on a loaded machine a late wake-up can fail it without any defect.
+            // Such a failure is believed only if the same case fails again in one of two
+            // immediate re-executions; otherwise it is counted and reported as unconfirmed.
+            let real_clock = aio::take_real_clock_used();
+            let verdict = match verdict {
+                Err(first) if real_clock && !first.sig.starts_with("harness:") => {
+                    let mut confirmed = None;
+                    for _ in 0..2 {
+                        watchdog::begin_case(prop, name, &value);
+                        let again = std::panic::catch_unwind(AssertUnwindSafe(|| suite.check(&case)));
+                        watchdog::end_case();
+                        let _ = aio::take_real_clock_used();
+                        match again {
+                            Ok(Ok(())) => {}
+                            Ok(Err(v)) if v.sig.starts_with("harness:") => {}
+                            Ok(Err(v)) => {
+                                confirmed = Some(if v.sig == first.sig { first.clone() } else { v });
+                                break;
+                            }
+                            Err(_) => {
+                                confirmed = Some(first.clone());
+                                break;
+                            }
+                        }
+                    }
+                    match confirmed {
+                        Some(v) => Err(v),
+                        None => {
+                            bump("unconfirmed-real-clock-failure", 1);
+                            eprintln!("note: {} {}: a real-clock case failed once and passed twice on re-execution (not counted): {} {}", prop, name, first.sig, first.msg);
+                            Ok(())
+                        }
+                    }
+                }
+                v => v,
+            };
             let extra = take_extra();
             let mut st = st.borrow_mut();
             let st = &mut *st;
